@@ -155,6 +155,7 @@ class AbstractResponderFunc():  # Not a real ABC.
 
     def __init__(self):
         self._func = None
+        self._one_shot = False
         self._permanent = False
         self.enabled = False
         self.dispatcher = None
@@ -166,6 +167,8 @@ class AbstractResponderFunc():  # Not a real ABC.
 
     @func.setter
     def func(self, value):  # prFunc_
+        if self._one_shot:
+            value = self._one_shot_func(value)  # Stays a one time action.
         self._func = value
         mdl.NotificationCenter.notify(self, 'function')
 
@@ -205,13 +208,16 @@ class AbstractResponderFunc():  # Not a real ABC.
 
     def one_shot(self):
         '''Make the responder a one time action.'''
-        wrapped_func = self._func
+        if not self._one_shot:
+            self._one_shot = True
+            self.func = self._func  # Wrapped by the setter.
 
+    def _one_shot_func(self, wrapped_func):
         def one_shot_func(*args):
             self.free()
             fn.value(wrapped_func, *args)
 
-        self.func = one_shot_func
+        return one_shot_func
 
     # def fix(self):  # Use oscfunc.permanent = True.
     #     self.permanent = True
